@@ -1071,12 +1071,12 @@ class Interp:
         raise Unsupported(f"'in' on {type(container).__name__}")
 
     def truth(self, st, v) -> bool:
+        if isinstance(v, SOpt):
+            v = st.force(v)
         if isinstance(v, bool):
             return v
         if isinstance(v, SBool):
             return st.branch(v.e)
-        if isinstance(v, SOpt):
-            v = st.force(v)
         if v is None:
             return False
         if isinstance(v, (SInt, SReal)):
